@@ -1,4 +1,5 @@
 """C20 (engine CL) - see RULE."""
+from vlib.engines import bc as _bc
 from vlib.engines import cl
 from vlib import tracefuzz
 from vlib.engines.base import drive, run_trace
@@ -31,13 +32,25 @@ class Eng(cl.CLEngine):
         return bool(self.nt & NT) or bool(NT & self.labels)
 
 
+class BcEng(_bc.BCEngine):
+    """the anchored mechanism 'broker client close: drop connection or cancel attempt, fail pending requests' on its own: close() while
+    connecting, backing off, with written and unwritten requests, from inside a response callback, with errbacks that cancel siblings"""
+
+    def nontrivial(self):
+        return "closed-with-pending" in self.nt or "closed-from-response-callback" in self.nt or "errback-cancelled-sibling" in self.nt
+
+
 def shard(ctx):
+    drive(ctx, BcEng, ctx.n(16 * 60, 16 * 1500), min_steps=6, max_steps=40, offset=5, props={"C20"})
     drive(ctx, Eng, ctx.n(16 * 250, 16 * 6000), min_steps=8, max_steps=70, props={"C20"})
     # coverage-guided trace search (atheris driving the same Hypothesis driver, fuzz/traces.py)
     tracefuzz.run(ctx, "c20", 120 if ctx.tier == "quick" else 6000, nshards=2 if ctx.tier == "quick" else 4)
 
 
 def replay(case, ctx):
+    if isinstance(case, dict) and case.get("engine") == "BC":
+        run_trace(BcEng, case, ctx, props={"C20"})
+        return
     run_trace(Eng, case, ctx, props={"C20"})
 
 TECHNIQUE = "stateful property-based testing: close() drawn at any step of a client trace (bootstrapping, connecting, backing off, requests in flight on several brokers, brokers being closed by a refresh), then every ordering of connectionLost notifications and late events; plus coverage-guided fuzzing of the same trace driver (atheris/libFuzzer mutating Hypothesis' choice sequence; fuzz/traces.py)"
@@ -47,5 +60,6 @@ RULE = (
     "that delivers the last connectionLost (synchronously when none), caches are empty, no delayed call remains. non-trivial = close with >=1 call pending and "
     "connections/attempts on >=2 distinct hosts; distinct = distinct trace."
     ' Scripts close the client in busy states (requests in flight on several brokers with held replies, a broker in reconnect back-off incl. synchronous refusals, a connection attempt pending); half of the configurations have discovery off and a leader for every partition so that busy states are reached that do not run into the recorded bootstrap-path finding.'
+    " The broker client's own close() (engine BC): called while connecting, backing off, with written and unwritten requests, from inside a response callback, and with owner errbacks that cancel a sibling request while close() is failing them - it never raises, every pending request fails (ClientError, or CancelledError for one its owner cancelled meanwhile), its Deferred fires once and only when the connection or attempt is gone."
 )
 ASSUMPTIONS = []
